@@ -8,6 +8,7 @@ R17.3  pass-through: request() forwards every caller kwarg except `headers`, unc
 R17.4  CompositeAuth threads the result through self.plugins in order
 R17.5  ApiKeyAuth location switch is total and writes self.name -> self.key into the right container
 R17.7  where plugin-added params / cookies are merged into the caller's value, that value is converted with dict() only under a type test
+R17.8  the credential a bundled plugin writes is built from its stored state, never from the raw result of an awaited callback
 R17.6  bundled plugins extend (copy-then-update) the container they write and return request_args
 """
 from __future__ import annotations
@@ -432,6 +433,7 @@ def run(repo: Repo, rep: Report, tier: str) -> None:
             continue
         n_plug += 1
         _plugin_rules(cls, m, rep)
+        _credential_from_state(cls, m, rep)
     rep.count("R17.6:bundled_plugins", n_plug)
     rep.require(n_plug >= 4, f"R17.6: only {n_plug} bundled plugins found (floor 4)")
     ak = plugs.classes.get("ApiKeyAuth")
@@ -482,6 +484,45 @@ def _inside(node: ast.AST, anc: ast.AST) -> bool:
             return True
         p = parent(p)
     return False
+
+
+def _credential_from_state(cls: Class, m: Function, rep: Report, rule: str = "R17.8") -> None:
+    """The credential a plugin writes into the request comes from the plugin's *state* (`self.<attr>`), not from the raw result of an
+    awaited callback: a refresh hook that answers "nothing new" (empty / None) must leave the stored token in the header."""
+    from sa.match import Locals as _L
+
+    L = _L(m.node)
+    sub = f"{cls.module.relpath}:{cls.name}.authenticate_request credential source"
+    n_w = 0
+    bad = None
+    for n in own_nodes(m.node):
+        if not (isinstance(n, ast.Assign) and len(n.targets) == 1 and isinstance(n.targets[0], ast.Subscript) and isinstance(n.targets[0].value, ast.Name)):
+            continue
+        if n.targets[0].value.id in L.params:
+            continue  # `request_args["headers"] = headers`: the container, not a credential
+        n_w += 1
+        v = L.inline(n.value, stop=tuple(L.params))
+        for x in ast.walk(v):
+            if isinstance(x, ast.Await):
+                bad = bad or (n, "the awaited result itself")
+            if isinstance(x, ast.Name) and x.id not in ("self",) and x.id not in L.params:
+                defs = L.defs.get(x.id, [])
+                def _raw(val: Optional[ast.AST]) -> bool:
+                    if val is None or not any(isinstance(y, ast.Await) for y in ast.walk(val)):
+                        return False
+                    # `await cb(...) or self.token`: an empty answer falls back to the stored credential
+                    if isinstance(val, ast.BoolOp) and isinstance(val.op, ast.Or) and not any(isinstance(y, ast.Await) for y in ast.walk(val.values[-1])):
+                        return False
+                    return True
+
+                if any(_raw(val) for _, val, _ in defs):
+                    bad = bad or (n, f"local `{x.id}`, which can hold the raw result of an awaited callback")
+    if bad:
+        rep.violation(rule, sub, f"{m.fq}|credential-from-callback-result",
+                      f"`{norm(bad[0])[:70]}` writes {bad[1]} into the request instead of the plugin's stored credential: when the refresh hook returns an empty value "
+                      "('nothing new') the request leaves with `Bearer ` / `Bearer None` although a valid token is stored", m.loc(bad[0]))
+    elif n_w:
+        rep.ok(rule, sub, f"{n_w} credential write(s) are built from self.<attr> / constants (an awaited callback only updates the stored value under a guard)", m.loc())
 
 
 def _plugin_rules(cls: Class, m: Function, rep: Report) -> None:
